@@ -141,7 +141,7 @@ pub fn check_views(c: &ViewCase) -> CheckResult {
 }
 
 fn view_strategy() -> BoxedStrategy<ViewCase> {
-    (0i32..=9, 0i32..=9)
+    prop_oneof![40 => (0i32..=9, 0i32..=9), 1 => (257i32..=300, 1i32..=2), 1 => (1i32..=2, 257i32..=300)]
         .prop_flat_map(|(w, h)| {
             let n = (w * h) as usize;
             (Just(w), Just(h), prop::collection::vec(any::<u32>(), n..=n), prop::collection::vec(any::<u8>(), 4 * n..=4 * n), any::<[u8; 4]>())
@@ -220,7 +220,7 @@ pub fn check_png(c: &PngCase) -> CheckResult {
 }
 
 fn png_strategy() -> BoxedStrategy<PngCase> {
-    (0i32..=9, 0i32..=9)
+    prop_oneof![30 => (0i32..=9, 0i32..=9), 1 => (257i32..=300, 1i32..=2), 1 => (1i32..=2, 257i32..=300)]
         .prop_flat_map(|(w, h)| {
             let n = (w * h) as usize;
             let px = prop_oneof![
@@ -237,7 +237,7 @@ fn png_strategy() -> BoxedStrategy<PngCase> {
 pub fn property(_ctx: &Ctx) -> Property {
     Property {
         id: "C19",
-        rule: "part views: sizes 0..9 x 0..9 with arbitrary pixel words, arbitrary bytes written through get_data_u8_mut, arbitrary a,r,g,b for to_u32; oracle = word/byte layout model (A<<24|R<<16|G<<8|B; bytes B,G,R,A), cross-view visibility and from_vec/from_backing/into_vec/into_inner round trips (owned and borrowed backings; from_vec also with shorter vectors, with and without spare capacity, and longer ones: pixels that fit are kept, missing ones are zero). part png: premultiplied words (alpha-0 pixels with arbitrary colour bytes) written by write_png and decoded with the png crate; oracle = un-premultiply model floor(c*255/a), alpha unchanged, row-major RGBA8. Non-trivial: >=2 distinct pixels, w != h and pairwise different channel bytes (so a channel swap or transposition is visible); distinct by hash of the case.",
+        rule: "part views: sizes 0..9 x 0..9 (rarely 257..300 long or tall, also for part png) with arbitrary pixel words, arbitrary bytes written through get_data_u8_mut, arbitrary a,r,g,b for to_u32; oracle = word/byte layout model (A<<24|R<<16|G<<8|B; bytes B,G,R,A), cross-view visibility and from_vec/from_backing/into_vec/into_inner round trips (owned and borrowed backings; from_vec also with shorter vectors, with and without spare capacity, and longer ones: pixels that fit are kept, missing ones are zero). part png: premultiplied words (alpha-0 pixels with arbitrary colour bytes) written by write_png and decoded with the png crate; oracle = un-premultiply model floor(c*255/a), alpha unchanged, row-major RGBA8. Non-trivial: >=2 distinct pixels, w != h and pairwise different channel bytes (so a channel swap or transposition is visible); distinct by hash of the case.",
         assumptions: vec!["little-endian target", "the png crate's decoder is trusted"],
         parts: vec![part_outside_c07("views", 60_000, 600_000, view_strategy, check_views), part("png", 20_000, 200_000, png_strategy, check_png)],
         min_class_fraction: vec![("views", "from_vec:short-nonzero", 0.5), ("png", "translucent", 0.5), ("png", "transparent-with-colour", 0.1)],
